@@ -83,7 +83,7 @@ def run_check(pid, tier, seed, replay=None):
                 if rp.get("case"):
                     cases = [rp["case"]]
             else:
-                cases = corpus_cases(pid) + prop.cases(tier, rng.fork(fk), schema, fs)
+                cases = corpus_cases(pid, fs) + prop.cases(tier, rng.fork(fk), schema, fs)
             lines = [c for c in cases]
             m = core.run_model(lines, fs)
             i = core.run_impl(lines, fs, extra_features=extra)
@@ -177,14 +177,21 @@ def run_check(pid, tier, seed, replay=None):
     return 1 if violations else 0
 
 
-def corpus_cases(pid):
+def corpus_cases(pid, feats=()):
+    """corpus/<id>.txt: one case per line (op TAB args); a leading `@feat,feat TAB` restricts the case to
+    feature sets that enable those features"""
     p = os.path.join(core.ROOT, "corpus", pid + ".txt")
     out = []
     if os.path.exists(p):
         for n, line in enumerate(open(p)):
             line = line.rstrip("\n")
-            if line and not line.startswith("#"):
-                out.append(f"{pid}.corpus.{n}\t{line}")
+            if not line or line.startswith("#"):
+                continue
+            if line.startswith("@"):
+                req, line = line.split("\t", 1)
+                if not all(r in feats for r in req[1:].split(",") if r):
+                    continue
+            out.append(f"{pid}.corpus.{n}\t{line}")
     return out
 
 
